@@ -332,6 +332,160 @@ def wrapper_delegation():
     return out
 
 
+# ------------------------------------------------------------------ what `<Field>.__set__` stores / `serialize_val` returns
+
+def _final_store_arg(fn, param="value"):
+    """the expression a `__set__` finally stores: the 2nd argument of its LAST top-level `super().__set__(instance, X)`
+    (the trusted short cut `if ..._trust_supplied_values...: super().__set__(...); return` is by contract and skipped)"""
+    last = None
+    for st in fn.body:
+        if isinstance(st, ast.Expr) and isinstance(st.value, ast.Call):
+            c = st.value
+            if isinstance(c.func, ast.Attribute) and c.func.attr == "__set__" and isinstance(c.func.value, ast.Call) \
+                    and isinstance(c.func.value.func, ast.Name) and c.func.value.func.id == "super" and len(c.args) == 2:
+                last = c.args[1]
+    return last
+
+
+def _is_copy_expr(e, param):
+    """an expression that builds a new object (a call other than a bare pass-through, a comprehension, a literal)"""
+    if isinstance(e, (ast.ListComp, ast.DictComp, ast.SetComp, ast.List, ast.Dict, ast.Set, ast.Tuple)):
+        return True
+    if isinstance(e, ast.Call):
+        return True
+    if isinstance(e, ast.IfExp):
+        # `value if isinstance(value, frozenset) else frozenset(value)`: the kept branch is an immutable object
+        return _is_copy_expr(e.orelse, param) or _is_copy_expr(e.body, param)
+    return False
+
+
+def wrapper_store_modes():
+    """{kind: "alias" | "rebuild"} for the multi-field wrappers' `__set__`: `super().__set__(instance, value)` with the
+    parameter itself keeps the caller's object; `super().__set__(instance, instance.__dict__[self._name])` (what the
+    matched option stored) delegates the copy to the option"""
+    tree = _parse("fields/multified_wrappers.py")
+    out = {}
+    for kind, cls in (("anyOf", "AnyOf"), ("oneOf", "OneOf"), ("allOf", "AllOf"), ("notF", "NotField")):
+        fn = _find(tree, cls, "__set__")
+        if fn is None:
+            continue
+        x = _final_store_arg(fn)
+        if x is None:
+            continue
+        if isinstance(x, ast.Name) and x.id == "value":
+            # still the parameter, unless it was rebound to what an option stored (`value = instance.__dict__[...]`)
+            rebound = any(isinstance(st, ast.Assign) and any(isinstance(t, ast.Name) and t.id == "value" for t in st.targets)
+                          for st in ast.walk(fn))
+            out[kind] = "rebuild" if rebound else "alias"
+        else:
+            out[kind] = "rebuild"
+    return out
+
+
+def coll_store_modes():
+    """{(kind, "typed" | "untyped"): mode} for Set / ImmutableSet / Tuple `__set__` (the collections without a typed
+    wrapper class): is what is finally stored still the parameter object on some non-trusted path?"""
+    out = {}
+    for kind, rel, cls in (("set", "fields/set_field.py", "Set"), ("immSet", "fields/set_field.py", "ImmutableSet"),
+                           ("tuple", "fields/tuple_field.py", "Tuple")):
+        fn = _find(_parse(rel), cls, "__set__")
+        if fn is None:
+            continue
+        x = _final_store_arg(fn)
+        if x is None:
+            continue
+        if not (isinstance(x, ast.Name) and x.id == "value"):
+            # stored through another name: look at how that name was bound
+            binds = [st.value for st in ast.walk(fn) if isinstance(st, ast.Assign)
+                     and any(isinstance(t, ast.Name) and isinstance(x, ast.Name) and t.id == x.id for t in st.targets)]
+            m = "rebuild" if binds and all(_is_copy_expr(b, "value") for b in binds) else "alias"
+            out[(kind, "typed")] = out[(kind, "untyped")] = m
+            continue
+        # stored as `value`: unconditional top-level rebinding, or rebinding per branch of an if-chain
+        top = [st for st in fn.body if isinstance(st, ast.Assign)
+               and any(isinstance(t, ast.Name) and t.id == "value" for t in st.targets)]
+        if any(_is_copy_expr(st.value, "value") for st in top):
+            out[(kind, "typed")] = out[(kind, "untyped")] = "rebuild"
+            continue
+        typed = untyped = "alias"
+        for st in fn.body:
+            if not isinstance(st, ast.If) or "_trust_supplied_values" in ast.unparse(st.test):
+                continue
+            node = st
+            while isinstance(node, ast.If):
+                assigns = [a for a in node.body if isinstance(a, ast.Assign)
+                           and any(isinstance(t, ast.Name) and t.id == "value" for t in a.targets)
+                           and _is_copy_expr(a.value, "value")]
+                if assigns:
+                    if "items" in ast.unparse(node.test):
+                        typed = "rebuild"
+                    else:
+                        untyped = "rebuild"
+                node = node.orelse[0] if len(node.orelse) == 1 and isinstance(node.orelse[0], ast.If) else None
+        out[(kind, "typed")], out[(kind, "untyped")] = typed, untyped
+    return out
+
+
+def serialize_val_modes():
+    """{label: mode} read off `serialize_val` (the regular Serializer): what the branch of each collection kind
+    returns — a comprehension (rebuild) or the stored value itself (alias).  labels: map, pos, typed, untyped, tuple,
+    generic-seq, struct, wrapper"""
+    fn = _find_fn(_parse("serialization/serialization.py"), "serialize_val")
+    if fn is None:
+        return {}
+    param = "val"
+    out = {}
+
+    def ret_mode(e):
+        m = _expr_mode(e, param)
+        if m:
+            return m
+        if isinstance(e, ast.Call):
+            return "rebuild"          # delegates to another serializer function
+        return None
+
+    def returns_in(stmts):
+        return [n.value for st in stmts for n in ast.walk(st) if isinstance(n, ast.Return) and n.value is not None]
+
+    for st in fn.body:
+        if not isinstance(st, ast.If):
+            continue
+        test = ast.unparse(st.test)
+        if "SizedCollection" in test:
+            for sub in st.body:
+                if isinstance(sub, ast.If) and "Map" in ast.unparse(sub.test):
+                    ms = {ret_mode(r) for r in returns_in(sub.body)}
+                    out["map"] = "alias" if "alias" in ms else "rebuild" if ms == {"rebuild"} else None
+                elif isinstance(sub, ast.If):
+                    node, labels = sub, []
+                    while isinstance(node, ast.If):
+                        t = ast.unparse(node.test)
+                        lab = "pos" if "list" in t else "typed" if "Field" in t else None
+                        rs = returns_in(node.body)
+                        if lab and rs:
+                            out[lab] = ret_mode(rs[0])
+                        if node.orelse and not (len(node.orelse) == 1 and isinstance(node.orelse[0], ast.If)):
+                            rs = returns_in(node.orelse)
+                            if rs:
+                                out["untyped"] = ret_mode(rs[0])
+                            node = None
+                        else:
+                            node = node.orelse[0] if node.orelse else None
+        elif "Tuple" in test and "tuple" in test:
+            rs = returns_in(st.body)
+            if rs:
+                out["tuple"] = ret_mode(rs[0])
+        elif "MultiFieldWrapper" in test:
+            rs = returns_in(st.body)
+            if rs:
+                out["wrapper"] = ret_mode(rs[0])
+        elif "isinstance(val, Structure)" in test and "ClassReference" in ast.unparse(st):
+            rs = returns_in(st.body)
+            if rs:
+                out["struct"] = ret_mode(rs[-1])
+    return {k: v for k, v in out.items() if v}
+
+
 def wrapper_ctor_copies():
     """{kind: True/False}: the typed wrapper's constructor copies the incoming collection (`super().__init__(x)`)"""
     tree = _parse("fields/collections_impl.py")
@@ -398,6 +552,54 @@ def ast_readings():
         for op in ("construct", "setattr"):
             for cat in ("number", "string", "scalar", "coll", "inline", "wrap", "untyped", "any", "struct"):
                 out[(op, kind, cat)] = "rebuild" if copies else "alias"
+    # what the multi-field wrappers' `__set__` finally stores (visible where the option is a container: the rows of
+    # scalar / by-reference options show the option's behaviour, not the wrapper's)
+    for kind, m in wrapper_store_modes().items():
+        for op in ("construct", "setattr"):
+            for cat in (("untyped",) if kind == "notF" else ("coll", "inline", "wrap")):
+                out[(op, kind, cat)] = m
+    # Set / ImmutableSet / Tuple `__set__`
+    for (kind, typed), m in coll_store_modes().items():
+        cats = ("untyped",) if typed == "untyped" else ("number", "string", "scalar", "any", "coll", "struct", "inline", "wrap")
+        for op in ("construct", "setattr"):
+            for cat in cats:
+                out[(op, kind, cat)] = m
+                if kind == "tuple":
+                    out[(op, "tuplePos", "none")] = m
+    # `<Wrapper>.serialize` (fast serialization, <field>.serialize): a delegation `<option>.serialize(value)` hands on
+    # what the option builds; OneOf.serialize raises
+    for kind, how in wrapper_delegation().items():
+        if kind == "notF" or how == "first-fit":
+            continue
+        for op in ("fieldSerialize",) + (("fastSerialize",) if delegates else ()):
+            for cat in ("number", "string", "scalar", "any", "coll", "struct", "inline", "wrap"):
+                out[(op, kind, cat)] = "error" if how == "raises" else "rebuild"
+    # the regular Serializer: `serialize_val`
+    sv = serialize_val_modes()
+    allcats = ("number", "string", "scalar", "any", "coll", "struct", "inline", "wrap")
+    if "map" in sv:
+        for cat in allcats + ("untyped",):
+            out[("serialize", "map", cat)] = sv["map"]
+    if "typed" in sv:
+        for kind in ("array", "deque", "set", "immSet"):
+            for cat in allcats:
+                out[("serialize", kind, cat)] = sv["typed"]
+    if "untyped" in sv:
+        for kind in ("array", "deque", "set", "immSet"):
+            out[("serialize", kind, "untyped")] = sv["untyped"]
+    if "pos" in sv:
+        for kind in ("arrayPos", "dequePos"):
+            out[("serialize", kind, "none")] = sv["pos"]
+    if "tuple" in sv:
+        out[("serialize", "tuplePos", "none")] = sv["tuple"]
+        for cat in allcats:
+            out[("serialize", "tuple", cat)] = sv["tuple"]
+    if "wrapper" in sv:
+        for kind in ("anyOf", "oneOf", "allOf"):
+            for cat in allcats:
+                out[("serialize", kind, cat)] = sv["wrapper"]
+    if "struct" in sv:
+        out[("serialize", "struct", "none")] = out[("serialize", "inline", "none")] = sv["struct"]
     return out
 
 
@@ -451,8 +653,9 @@ def agree(ast_mode, op, kind, row):
     m = mode_of_row(op, kind, row)
     if ast_mode in ("mutates", "keeps"):
         return (ast_mode == "mutates") == row["argMutated"]
-    if m == "error":
-        return True          # the idiom says how the value would be copied; the probe could not get that far
+    if m == "error" or ast_mode == "error":
+        return True          # the idiom says how the value would be copied; the probe could not get that far (and a
+                             # site the source says raises hands out nothing)
     if ast_mode == "rebuild":
         return m in ("rebuild", "deep")
     if ast_mode == "deep":
